@@ -21,6 +21,8 @@ pub enum Cons {
     StreamTinyBudget,
     /// DeleteTopic of the subscription's topic, racing with the DeleteSubscription
     DeleteTopicRace,
+    /// a Publish on the subscription's topic racing with the DeleteSubscription (it wakes the waiting consumers)
+    PublishRace,
 }
 
 pub type Holder = Arc<Mutex<Vec<tokio::sync::mpsc::Sender<StreamingPullRequest>>>>;
@@ -87,7 +89,7 @@ fn program_x(name: &'static str, parked: Vec<Cons>, racing: Vec<Cons>, with_outs
         }
         let mut handles: Vec<(String, Cons, bool, tokio::task::JoinHandle<()>)> = vec![];
         let start = |c: Cons, i: usize, parked: bool| {
-            let who = format!("{}{}", match c { Cons::StreamOpen => "stream-open", Cons::StreamClosed => "stream-closed", Cons::BlockedPull => "blocked-pull", Cons::Ack => "ack", Cons::Modify => "modify", Cons::PullNow => "pull-now", Cons::StreamCtlAck => "stream-ctl-ack", Cons::StreamTinyBudget => "stream-tiny-budget", Cons::DeleteTopicRace => "delete-topic" }, i);
+            let who = format!("{}{}", match c { Cons::StreamOpen => "stream-open", Cons::StreamClosed => "stream-closed", Cons::BlockedPull => "blocked-pull", Cons::Ack => "ack", Cons::Modify => "modify", Cons::PullNow => "pull-now", Cons::StreamCtlAck => "stream-ctl-ack", Cons::StreamTinyBudget => "stream-tiny-budget", Cons::DeleteTopicRace => "delete-topic", Cons::PublishRace => "publish" }, i);
             let (cx2, log2, who2, holder2, ack_id2) = (cx.clone(), log.clone(), who.clone(), holder.clone(), ack_id.clone());
             let label = format!("client:a-{}", who);
             let h = match c {
@@ -113,6 +115,10 @@ fn program_x(name: &'static str, parked: Vec<Cons>, racing: Vec<Cons>, with_outs
                 Cons::DeleteTopicRace => cx.spawn(&label, async move {
                     let r = cx2.api.delete_topic(T0).await;
                     log2.push(&cx2, &who2, format!("ret:{}", res(&r)));
+                }),
+                Cons::PublishRace => cx.spawn(&label, async move {
+                    let r = cx2.api.publish(T0, vec![(b"racing".to_vec(), vec![])]).await;
+                    log2.push(&cx2, &who2, format!("ret:{}", res(&r.map(|_| ()))));
                 }),
                 Cons::StreamCtlAck => cx.spawn(&label, async move {
                     let tx = holder2.lock().unwrap().first().cloned();
@@ -390,6 +396,8 @@ pub fn units(thorough: bool) -> Vec<Unit> {
         ("race-blocked-pull", vec![], vec![BlockedPull], false, d2),
         ("race-ack-modify-pull", vec![], vec![Ack, Modify, PullNow], true, d2),
         ("stream-ctl-ack", vec![StreamOpen], vec![StreamCtlAck], true, d2),
+        ("stream+publish-race", vec![StreamOpen], vec![PublishRace], false, d2),
+        ("stream-closed+stream+publish-race", vec![StreamClosed, StreamOpen], vec![PublishRace], false, d2),
         ("stream+delete-topic-race", vec![StreamOpen], vec![DeleteTopicRace], false, d2),
         ("pull+stream+delete-topic-race", vec![BlockedPull, StreamClosed], vec![DeleteTopicRace], false, d2),
         ("stream-tiny-byte-budget", vec![StreamTinyBudget], vec![], false, d2),
